@@ -215,6 +215,8 @@ def collect_violations(pid, outdir):
             v = {"kind": "unreadable", "message": "", "case": None}
         h = hashlib.sha256(json.dumps(v.get("case"), sort_keys=True).encode()).hexdigest()[:12]
         d = os.path.join(VERIF, "replays", pid)
+        if os.environ.get("VERIF_NO_EVIDENCE") == "1":
+            d = os.path.join(tempfile.gettempdir(), "verif-mutant-replays", pid)
         os.makedirs(d, exist_ok=True)
         dst = os.path.join(d, "%s-%s.json" % (re.sub(r"[^A-Za-z0-9_.-]", "_", v.get("kind", "v"))[:40], h))
         shutil.copy(f, dst)
@@ -283,7 +285,7 @@ def cmd_check(pid, tier, replay=None):
         extra = {}
         if spec.get("rapid", True) and not replay and not viols and not infra and tot["rapid_passed"] < want:
             infra.append("rapid reported %d passed tests, %d requested (truncated run)" % (tot["rapid_passed"], want))
-        if not replay:
+        if not replay and os.environ.get("VERIF_NO_EVIDENCE") != "1":
             write_evidence(pid, spec, tier, seed, tot, wall, len(viols), extra)
         for f in load_findings():
             if f.get("property") == pid and f.get("status") == "open":
@@ -398,6 +400,68 @@ def cmd_manifest():
     return 0
 
 
+def copy_repo(dst):
+    """Copy the parts of the repository the checks use into dst (never touches /repo)."""
+    src = repo()
+    for rel in ("go", os.path.join("python", "mcap"), os.path.join("tests", "conformance", "data")):
+        shutil.copytree(os.path.join(src, rel), os.path.join(dst, rel), symlinks=True,
+                        ignore=shutil.ignore_patterns("test-read-conformance/test-read-conformance", "test-write-performance", "*.test"))
+
+
+def cmd_mutants(only, out_path, emit):
+    sys.path.insert(0, os.path.join(VERIF, "mutants"))
+    from mutants import MUTANTS
+    import difflib
+    results = []
+    for mid, prop, rel, old, new in MUTANTS:
+        if only and not any(mid.startswith(o) or prop == o for o in only):
+            continue
+        base = make_scratch()
+        try:
+            if emit:
+                srcp = os.path.join(repo(), rel)
+                text = open(srcp).read()
+                if text.count(old) < 1:
+                    print("MUTANT %s: old text not found in %s" % (mid, rel))
+                    continue
+                mut = text.replace(old, new, 1)
+                diff = "".join(difflib.unified_diff(text.splitlines(True), mut.splitlines(True), "a/" + rel, "b/" + rel))
+                open(os.path.join(VERIF, "mutants", mid + ".patch"), "w").write(diff)
+                continue
+            copy_repo(base)
+            p = os.path.join(base, rel)
+            text = open(p).read()
+            if text.count(old) < 1:
+                results.append({"id": mid, "property": prop, "result": "STALE (old text not found)"})
+                print("MUTANT %-45s %s STALE" % (mid, prop), flush=True)
+                continue
+            open(p, "w").write(text.replace(old, new, 1))
+            e = dict(os.environ)
+            e.update({"GOPROXY": "off", "GOSUMDB": "off", "GOTOOLCHAIN": "local"})
+            e.pop("GOFLAGS", None)
+            moddir = os.path.join(base, os.path.dirname(rel))
+            b = subprocess.run(["go", "build", "./..."], cwd=moddir, env=e, stdout=subprocess.PIPE, stderr=subprocess.STDOUT, text=True)
+            if b.returncode != 0:
+                results.append({"id": mid, "property": prop, "result": "DOES-NOT-COMPILE", "detail": b.stdout[-500:]})
+                print("MUTANT %-45s %s DOES-NOT-COMPILE\n%s" % (mid, prop, b.stdout[-500:]), flush=True)
+                continue
+            e2 = dict(os.environ)
+            e2.update({"VERIF_REPO": base, "VERIF_NO_EVIDENCE": "1"})
+            t0 = time.time()
+            c = subprocess.run([sys.executable, os.path.join(VERIF, "run.py"), "check", prop, "--tier", "quick"], env=e2, stdout=subprocess.PIPE, stderr=subprocess.STDOUT, text=True)
+            first = [l for l in c.stdout.splitlines() if l.startswith(("VIOLATION", "  kind=", "HARNESS-ERROR", "OK "))][:3]
+            verdict = {0: "MISSED", 1: "CAUGHT", 2: "HARNESS-ERROR"}.get(c.returncode, "EXIT-%d" % c.returncode)
+            results.append({"id": mid, "property": prop, "result": verdict, "wall_s": round(time.time() - t0, 1), "detail": first})
+            print("MUTANT %-45s %s %-8s %5.1fs %s" % (mid, prop, verdict, time.time() - t0, (first[1] if len(first) > 1 else (first[0] if first else ""))[:160]), flush=True)
+        finally:
+            shutil.rmtree(base, ignore_errors=True)
+    if out_path and not emit:
+        json.dump(results, open(out_path, "w"), indent=1)
+    missed = [r for r in results if r["result"] != "CAUGHT"]
+    print("mutants: %d run, %d caught, %d not caught" % (len(results), len(results) - len(missed), len(missed)))
+    return 0 if not missed else 1
+
+
 def main():
     ap = argparse.ArgumentParser()
     sub = ap.add_subparsers(dest="cmd", required=True)
@@ -409,9 +473,15 @@ def main():
     r.add_argument("file")
     sub.add_parser("setup")
     sub.add_parser("manifest")
+    mu = sub.add_parser("mutants")
+    mu.add_argument("--only", default="")
+    mu.add_argument("--out", default="")
+    mu.add_argument("--emit-patches", action="store_true")
     b = sub.add_parser("baseline")
     b.add_argument("--tags", default="")
     a = ap.parse_args()
+    if a.cmd == "mutants":
+        sys.exit(cmd_mutants([x for x in a.only.split(",") if x], a.out, a.emit_patches))
     if a.cmd == "baseline":
         sys.exit(cmd_baseline(a.tags))
     if a.cmd == "manifest":
